@@ -32,7 +32,20 @@ class ArrV(Opaque):
     def __sym_getattr__(self, interp, name):
         if name == "copy":
             return lambda *a, **k: ArrV(self.origin)
-        return Opaque(f"{self.origin}.{name}")
+        return _ArrAttr(f"{self.origin}.{name}")
+
+    def __sym_getitem__(self, interp, idx):
+        return ArrV(f"{self.origin}[...]")
+
+    def __sym_setitem__(self, interp, idx, v):
+        return None
+
+
+class _ArrAttr(Opaque):
+    """an attribute of an array value: opaque when read, and when CALLED (an array method) it yields an array about which nothing is known"""
+
+    def __call__(self, *a, **k):
+        return ArrV(f"{self.what}(...)")
 
 
 class NumpyShim:
@@ -180,7 +193,12 @@ def load_harness(kind, file_kind="opaque"):
                     def backward(g=None):
                         events.append(("backward", g))
                     return backward
-                raise AssertionError(name)
+                # anything else load() reads from / writes to the tensor it built is logged (not a crash): the clauses below say what it may do
+                events.append(("read-new-tensor", name))
+                return ArrV(f"new tensor.{name}")
+
+            def __sym_setattr__(self, interp, name, v):
+                events.append(("write-new-tensor", name))
 
         nt = NewTensor()
 
@@ -208,6 +226,14 @@ def load_harness(kind, file_kind="opaque"):
         tens = [e for e in events if e[0] == "tb.tensor"]
         # default arguments only: tensor(x) copies and infers dtype/constant from the stored array (C17)
         ctx.oblige(f"{tag}.tensor_built_from_data_entry", len(tens) == 1 and getattr(tens[0][1], "origin", None) == "stored data" and not tens[0][2] and not tens[0][3], got=repr(tens[0][1]) if tens else None, **meta)
+        # the gradient is restored THROUGH backward() (C14.seed then gives a gradient of the tensor's dtype, shape and layout with the stored
+        # values); the freshly built tensor's private slots are not written behind its back
+        if [e for e in events if e[0] == "write-new-tensor"]:
+            # load() restores the gradient by another route than backward(): whether the array it stores has the stored values, dtype and shape is
+            # not decidable over opaque arrays -- the deductive layer abstains (exit 2), the bounded round trips decide
+            from pyvc.interp import Unsupported
+
+            raise Unsupported("load() writes the new tensor's private slots instead of seeding through backward(): value equality with the stored gradient is outside this model")
         bw = [e for e in events if e[0] == "backward"]
         if kind == "with-grad":
             ctx.oblige(f"{tag}.gradient_reseeded", len(bw) == 1 and getattr(bw[0][1], "origin", None) == "stored grad", **meta)
